@@ -174,3 +174,11 @@ Theorem offset_through_left_join_refuted :
 Proof.
   exists (fun _ _ => true), 1%nat, 1%nat, [[VInt 1]], [[VInt 1]; [VInt 2]]. vm_compute. discriminate.
 Qed.
+
+(* ---------- a filter does not commute with LIMIT ---------- *)
+(* an outer condition may not move below the LIMIT of a derived table (or into the fetch of a sub-select that cuts its rows) *)
+Theorem filter_below_limit_refuted :
+  exists (p : row -> bool) n (R : rel), firstn n (filter p R) <> filter p (firstn n R).
+Proof.
+  exists (fun r => val_eqb (hd VNull r) (VInt 1)), 1%nat, [[VInt 0]; [VInt 1]]. vm_compute. discriminate.
+Qed.
